@@ -58,15 +58,23 @@ impl LdapConn {
         let rt = runtime::Builder::new_current_thread()
             .enable_all()
             .build()?;
-        let ldap = rt.block_on(async move {
+        let res = rt.block_on(async move {
             let (conn, ldap) = match LdapConnAsync::from_url_with_settings(settings, url).await {
                 Ok((conn, ldap)) => (conn, ldap),
                 Err(e) => return Err(e),
             };
             super::drive!(conn);
             Ok(ldap)
-        })?;
-        Ok(LdapConn { ldap, rt })
+        });
+        match res {
+            Ok(ldap) => Ok(LdapConn { ldap, rt }),
+            Err(e) => {
+                // Dropping the runtime would wait for a name lookup still blocked in a worker
+                // thread, well past the connection timeout which has just expired.
+                rt.shutdown_background();
+                Err(e)
+            }
+        }
     }
 
     /// See [`Ldap::with_search_options()`](struct.Ldap.html#method.with_search_options).
